@@ -329,7 +329,9 @@ def krylov_step_excess(calls, hams, target_times, gens=None):
             D = int(round(np.sqrt(vin.size)))
             X = vin.reshape(D, D)
             nonherm = 4.0 * float(np.linalg.norm(X - X.conj().T)) / 2.0 / nv
-        if err <= 10 * c["tol"] + 2e-13 * (1 + a2) + 2e-10 + nonherm:  # 2e-10: accuracy floor of torch.linalg.matrix_exp (see C07)
+        # rounding floor of the Lanczos/Arnoldi recurrence itself grows with |A| (seen: |A| = 115 for a step as long as the whole sequence,
+        # 8-dimensional space: torch and numpy runs of the SAME recurrence differ by 3e-9 at the stopping iteration, error 1.4e-9)
+        if err <= 10 * c["tol"] + 2e-11 * (1 + a2) + 2e-10 + nonherm:  # 2e-10: accuracy floor of torch.linalg.matrix_exp (see C07)
             continue
         if not c["happy"] and krylov_model.explained_by_pinned_algorithm(A, vin, herm, c["tol"], c["tol"], 100, c["out"], c["iters"]):
             excess += (err - 10 * c["tol"]) * nv
